@@ -60,7 +60,9 @@ SeekArgs == Ev.tuple # <<>> /\ \A c \in Range(Ev.tuple) : Known(c)
 SeekGood == (Ev.res = Nil) = (Ev.err # "") /\ SeekOK(anc, Ev.tuple, Ev.res)
 TSeek == /\ Ev.op = "seek" /\ SeekArgs
          /\ IF SeekGood THEN TRUE
-            ELSE Classify /\ Report(SeekSig(anc, Ev.tuple, Ev.res))
+            ELSE Classify /\ Report(SeekSig(anc, Ev.tuple, Ev.res) \o
+                                    \* a recorded finding is the answer of the transcribed algorithm, nothing else
+                                    (IF Ev.res = SeekAsCoded(g, Ev.tuple) THEN "" ELSE "/unlike-transcription"))
          /\ UNCHANGED <<g, anc>>
 
 (* the named deviation: what ref.SeekCommonAncestor is known to do         *)
